@@ -49,6 +49,8 @@ def equal_up_to_rounding(a, ka, b, kb):
         if x is not None and y is not None and x == x and y == y and abs(x) != float("inf") and abs(y) != float("inf"):
             m = max(abs(x), abs(y))
             return T(x == y or abs(x - y) <= 1e-9 * m or m < 1e-290)
+        # symbolic: the same number (NaN with NaN; -0.0 and 0.0 are the same value, as in the concrete comparison above)
+        return z3.Or(z3.And(z3.fpIsNaN(a), z3.fpIsNaN(b)), z3.fpEQ(a, b))
     return summary_equal(a, ka, b, kb)
 
 def same_frames(on, off, label):
@@ -68,15 +70,15 @@ def same_frames(on, off, label):
 
 class OnOff(Harness):
     prop = "C08"; opname = "agg_numba"
-    def __init__(self, helper, kind, maxn):
-        self.helper = helper; self.kind = kind; self.maxn = maxn
-        self.name = f"C08.onoff.{helper}.{kind}.n{maxn}"
-        self.bounds = {"rows": f"1..{maxn}", "dtype": KIND_DTYPE[kind], "group layouts": "all layouts of <= 3 groups",
+    def __init__(self, helper, kind, maxn, only_n=False):
+        self.helper = helper; self.kind = kind; self.maxn = maxn; self.only_n = only_n
+        self.name = f"C08.onoff.{helper}.{kind}.n{maxn}" + (".fixed" if only_n else "")
+        self.bounds = {"rows": f"1..{maxn}" if not only_n else str(maxn), "dtype": KIND_DTYPE[kind], "group layouts": "all layouts of <= 3 groups" if maxn <= 3 else "one group, two interleaved groups",
                        "real replay": "fresh interpreter + fresh NUMBA_CACHE_DIR per witness"}
         self.symbolic = ["all cells", "nth index", "q"]; self.choice_dims = ["layout", "drop_na"]
         self.goals = [f"aggregate.py:{helper}", "aggregate.py:use_numba", "aggregate.py:yield_groups_numba"]
     def build(self, ctx):
-        n = choice("n", range(1, self.maxn + 1))
+        n = choice("n", range(1, self.maxn + 1)) if not self.only_n else self.maxn
         lay = choice("layout", LAYOUTS[n])
         return {"steps": [step_input(ctx, self.helper, self.kind, n, lay)]}
     def regions(self, inp):
@@ -188,10 +190,12 @@ def harnesses(tier):
         for h, k in (("any", "f"), ("count", "f"), ("count_unique", "f"), ("nth", "f"), ("min", "f"), ("mode", "f"), ("mean", "f"),
                      ("quantile", "f"), ("std", "f"), ("sum", "f"), ("min", "D"), ("first", "i"), ("max", "b"), ("median", "i")):
             hs.append(OnOff(h, k, 2))
+        hs.append(OnOff("mode", "i", 4, only_n=True))       # ties between values that occur twice need four elements
     else:
         for h in allh:
             for k in [k for k in KINDS[h] if k in NUMBA_KINDS]:
                 hs.append(OnOff(h, k, 3))
+        for h in ("mode", "count_unique", "nth"): hs.append(OnOff(h, "i", 4, only_n=True))
     if q:
         for a, b in (("count_unique", "first"), ("median", "last"), ("mode", "first")):
             hs.append(SameCall(a, b, "f", 2))
